@@ -219,6 +219,10 @@ fn src_tiles(case: &Value) -> Vec<(u8, u32, u32, u32)> {
 }
 fn raw_payload(p: u32) -> Vec<u8> {
 	// payloads 3 and 4 are themselves gzip / brotli streams: content that looks like an encoding is still content
+	// payload 7 is BIG: 17 MiB + 4 KiB of compressible content
+	if p == 7 {
+		return crate::mem::payload_c(p, (17 << 20) + 4096, 1);
+	}
 	crate::mem::payload_c(p, 200 + (p as usize % 5) * 37, match p { 3 => 2, 4 => 3, _ => 1 })
 }
 
